@@ -1,4 +1,6 @@
 import XalanModel.C11.DispatchProofs
+import XalanModel.C11.Recycle
+import XalanModel.Generated.C11_Caches
 /-!
 # C11 — an expression has one value, whichever way the caller asks for it
 
@@ -87,5 +89,58 @@ example : ∀ l, demoPrims.nsAdd [] l = l := by intro l; rfl
 
 example : evalAs demoPrims table callee ⟨0, 1, 1⟩ (.k2 .plus (.k0 (.numberlit 2)) (.k1 .count (.k0 (.locationPath fun _ => [3, 4])))) .str [120]
     = .str [120, 52] := by rfl
+
+/-- Character-event chunking does not matter: both cuts the code produces (one event per text node of the first node,
+or the memoised string at once; nothing for the empty string) are admissible cuts of `string(value)` — their
+concatenation is exactly the string the `chars` entry point is specified to deliver, and no event is empty.
+`hc`: `getNodeData` visits non-empty text nodes whose concatenation is the node's string-value. -/
+theorem chars_chunking_admissible {N : Type} (P : Prims N) (nodeChunks : Nat → List Str)
+    (hc : ∀ n, (nodeChunks n).flatten = P.nodeStr n ∧ ∀ e ∈ nodeChunks n, e ≠ []) (memoised : Bool) (v : Val N) :
+    AdmissibleEvents (toStr P v) (eventsOf P nodeChunks memoised v) := by
+  unfold eventsOf AdmissibleEvents
+  split
+  · rename_i n rest
+    simpa [toStr, nodesStr] using hc n
+  · split
+    · rename_i h
+      simp at h
+      simp [h]
+    · rename_i h
+      simp at h
+      simp [h]
+
+example : AdmissibleEvents [120, 121] [[120], [121]] := by simp [AdmissibleEvents]
+
+/-! ### recycled objects (the generic path converts through an XObject the factory may have used before) -/
+open XalanModel.C11.Recycle in
+/-- For every class `XObjectFactoryDefault` recycles (regenerated list: XNumber, XNodeSet, XString), `set()` — followed
+through `release()`/`clearCachedValues()`/`clearCachedNumberValue()` — resets every conversion-memo member of the class and
+its bases (`decide` over the regenerated member lists). -/
+theorem recycled_objects_clear_memos :
+    XalanModel.Generated.C11.recycled.all (fun r => allCleared r.2.1 r.2.2) = true := by decide
+
+open XalanModel.C11.Recycle in
+/-- Hence a recycled object is indistinguishable from a fresh one: whatever conversions its previous life was asked for
+(any `o` whose memos live in the class's memo members), after `set(v)` it *is* the fresh object for `v`. -/
+theorem recycled_objects_fresh {V A : Type} (r : String × List String × List String)
+    (hr : r ∈ XalanModel.Generated.C11.recycled) (o : Obj V A) (ho : Supported r.2.1 o) (v : V) :
+    reuse r.2.2 o v = fresh v := by
+  have h := List.all_eq_true.mp recycled_objects_clear_memos r hr
+  exact reuse_eq_fresh h ho v
+
+open XalanModel.C11.Recycle in
+/-- The converse, which makes the previous theorem the *right* obligation: a recycled object answers every conversion like
+a fresh one **iff** `set()` clears every memo member (each conversion distinguishing at least two values) — a member that
+survives is observable by: convert `v0`, release, reuse for `v1`, convert again. -/
+theorem recycled_like_fresh_iff {V A : Type} (compute : String → V → A) (fields cleared : List String)
+    (hdist : ∀ f ∈ fields, ∃ v0 v1, compute f v0 ≠ compute f v1) :
+    (∀ (o : Obj V A), Supported fields o → ∀ v f, f ∈ fields →
+        (ask compute (reuse cleared o v) f).1 = (ask compute (fresh v) f).1)
+      ↔ allCleared fields cleared = true :=
+  reused_like_fresh_iff compute fields cleared hdist
+
+open XalanModel.C11.Recycle in
+example : ∃ v0 v1 : Nat, (fun (_ : String) (v : Nat) => v + 1) "m_cachedNumberValue" v0 ≠
+    (fun (_ : String) (v : Nat) => v + 1) "m_cachedNumberValue" v1 := ⟨0, 1, by decide⟩
 
 end XalanModel.Props.C11
